@@ -106,3 +106,48 @@ package cff
 //@     invariant forall k int :: 0 <= k && k < len(offsets) - 1 ==> offsets[k] <= offsets[k+1]
 //@     invariant forall k int :: 0 <= k && k < len(offsets) ==> offsets[k] <= offsets[count]
 //@     decreases count - i
+
+// Type 2 number encoding (TN 5177 section 3.2): one byte for -107..107, two
+// bytes for +-108..+-1131, otherwise 28 followed by a 16-bit two's complement.
+//@ spec t2val(c []byte) int = ite(len(c) == 1, c[0] - 139, ite(len(c) == 2 && c[0] <= 250, (c[0] - 247)*256 + c[1] + 108, ite(len(c) == 2, 0 - (c[0] - 251)*256 - c[1] - 108, int16(be16(c, 1)))))
+//@ func encodeInt(x funit.Int16) (code []byte)   props: C04 C13
+//@   ensures fresh(code) && (len(code) == 1 || len(code) == 2 || len(code) == 3) && t2val(code) == x
+//@   ensures len(code) == 1 ==> 32 <= code[0] && code[0] <= 246
+//@   ensures len(code) == 2 ==> 247 <= code[0] && code[0] <= 254
+//@   ensures len(code) == 3 ==> code[0] == 28
+//@   ensures (len(code) == 1) == (-107 <= x && x <= 107)
+//@   ensures (len(code) == 2) == ((108 <= x && x <= 1131) || (-1131 <= x && x <= -108))
+//@   modifies nothing
+
+//@ assume func encodeNumber(x float64) (n encodedNumber)
+//@   modifies nothing
+//@ assume func (op t2op) Bytes() (b []byte)
+//@   ensures fresh(b)
+//@   modifies nothing
+//@ assume func encodePaths(commands []GlyphOp) (code [][]byte)
+//@   modifies nothing
+
+// encodeCharString, stem hints: an hstem/vstem(hm) operator is emitted with at
+// most 48 operands on the stack (the optional width operand included), and the
+// chunking loop terminates.
+//@ func (g *Glyph) encodeCharString(defaultWidth float64, nominalWidth float64) (code []byte, err error)   props: C04
+//@   opt assume_make=1
+//@   requires g != nil
+//@   modifies nothing
+//@   loop 0
+//@     invariant isnil(header) || fresh(header)
+//@   loop 1
+//@     invariant (isnil(header) || fresh(header)) && 0 <= extra && extra <= 1 && len(allStems) == 2 && fresh(allStems)
+//@   loop 2
+//@     invariant (isnil(header) || fresh(header)) && 0 <= extra && extra <= 1 && len(stems)%2 == 0 && len(allStems) == 2 && fresh(allStems)
+//@     decreases len(stems)
+//@   loop 3
+//@     invariant (isnil(header) || fresh(header)) && len(chunk) + extra <= 48 && 0 <= extra && extra <= 1 && len(stems)%2 == 0 && len(allStems) == 2 && fresh(allStems) && len(chunk) >= 2
+//@   loop 4
+//@     invariant true
+//@   loop 5
+//@     invariant true
+//@   loop 6
+//@     invariant isnil(code) || fresh(code)
+//@   loop 7
+//@     invariant isnil(code) || fresh(code)
